@@ -3,6 +3,9 @@ import TdModel.Model.C43
 namespace TdModel.C43
 open TdModel
 
+theorem pongCaseReturnsNil_eq : pongCaseReturnsNil = true := by decide
+theorem ctxCaseReturnsNil_eq : ctxCaseReturnsNil = false := by decide
+
 /-! ### list helpers -/
 
 theorem pongPings_getElem? (id : Int) (t : Option Nat) : ∀ (ps : List Ping) (i k : Nat),
@@ -209,7 +212,7 @@ theorem inv_step (s s' : State) (a : Action) (inv : Inv s) (h : step s a = some 
             simp only [if_true, hq, Option.map_some, Option.some.injEq] at hk
             subst hk
             have old := inv.closed k pg hq
-            exact ⟨old.1, fun hr => by simp at hr⟩
+            exact ⟨old.1, fun hr => by rw [ctxCaseReturnsNil_eq] at hr; simp at hr⟩
           · simp only [hkp, if_false] at hk
             exact inv.closed k pg' hk
       · cases h
